@@ -242,7 +242,8 @@ def run_case(case):
                         if mname not in A[sidx]:
                             continue
                         tot = results[0][sidx][mname]["counts"] + results[1][sidx][mname]["counts"]
-                        ck.expect(close(tot, A[sidx][mname]["counts"], np.abs(tot).max() + 1), f"split:counts-not-additive:{mname}", f"scale {sidx}")
+                        allscales = sum(float(np.abs(A[k][mname]["counts"]).max()) for k in range(len(A)) if mname in A[k])
+                        ck.expect(close(tot, A[sidx][mname]["counts"], max(float(np.abs(tot).max()), allscales) + 1), f"split:counts-not-additive:{mname}", f"scale {sidx}")
                         wkey = "w1" if ci == 0 else "w2"
                         wt = results[0][sidx][mname][wkey] + results[1][sidx][mname][wkey]
                         ck.expect(np.allclose(wt, A[sidx][mname][wkey], rtol=1e-12, atol=0), f"split:weight-sums-not-additive:{mname}")
@@ -292,7 +293,12 @@ def run_case(case):
                     f1 = f if i1 == t["cat"] else 1.0
                     f2 = f if i2 == t["cat"] else 1.0
                     ca, w1a, w2a = ca * f1 * f2, w1a * f1, w2a * f2
-                ok = close(ca, cb, np.abs(ca).max() + 1)
+                # the library differences cumulative counts over *all* scale limits: a cell's residue is
+                # relative to the largest cumulative count, i.e. to the counts of all scales together
+                allscales = sum(float(np.abs(A[k][mname]["counts"]).max()) for k in range(len(A)) if mname in A[k])
+                if kind == "weights":
+                    allscales *= f1 * f2
+                ok = close(ca, cb, max(float(np.abs(ca).max()), allscales) + 1)
                 ck.expect(ok, f"{kind}:counts-change:{mname}:{'auto' if ma['auto'] else 'cross'}", f"scale {sidx}: max |diff| {np.abs(ca - cb).max() if ca.shape == cb.shape else 'shape'}")
                 ck.expect(np.allclose(w1a, w1b, rtol=1e-12, atol=0) and np.allclose(w2a, w2b, rtol=1e-12, atol=0), f"{kind}:weight-sums-change:{mname}")
 
